@@ -1,8 +1,20 @@
 import Mp.CueFunc
+import Mp.CueFunc2
 import Mp.ProofsRK
-/-! C14 — function typing agrees with the descriptors and with evaluation: property theorems. -/
+import Mp.FactChecks2
+/-! C14 — property theorems (proved in the imported modules; statements are checked there, axioms audited here). -/
 #print axioms Mp.validOnOk_iff_admits
 #print axioms Mp.every_row_admits_something
 #print axioms Mp.returns_boolean
 #print axioms Mp.returns_number
 #print axioms Mp.returns_string
+#print axioms Mp.reports_descriptor_type
+#print axioms Mp.concrete_rows_not_known
+#print axioms Mp.element_type_of_typed_list
+#print axioms Mp.element_type_of_struct_list
+#print axioms Mp.element_type_after_call
+#print axioms Mp.FactChecks.boolean_rows_covered
+#print axioms Mp.FactChecks.number_rows_covered
+#print axioms Mp.FactChecks.string_rows_covered
+#print axioms Mp.FactChecks.remaining_rows
+#print axioms Mp.FactChecks.returnsBoolean_published
